@@ -43,7 +43,7 @@ func (s *server) ReleaseLock(c context.Context, r *pb.ReleaseLockRequest) (*pb.R
 
 	util.Assert(res.ReleaseLock != nil, "result must not be nil")
 	return &pb.ReleaseLockResponse{
-		Released: res.ReleaseLock.Status == t_api.StatusCreated,
+		Released: res.ReleaseLock.Status == t_api.StatusNoContent,
 	}, nil
 }
 
